@@ -217,6 +217,8 @@ func newC20Server(seed int64, useSMTP bool, jitterOn bool, jsonMode bool) (*c20s
 	mux.Handle("/auth/", http.StripPrefix("/auth", ab.Config.Core.Router))
 	mux.Handle("/protected", authboss.Middleware2(ab, authboss.RequireNone, authboss.RespondUnauthorized)(lock.Middleware(ab)(confirm.Middleware(ab)(probe))))
 	mux.Handle("/public", probe)
+	// one shared instance of the access middleware in redirect mode (hit concurrently by anonymous clients)
+	mux.Handle("/gate/", authboss.Middleware2(ab, authboss.RequireNone, authboss.RespondRedirect)(probe))
 	h := ab.LoadClientStateMiddleware(remember.Middleware(ab)(authboss.ModuleListMiddleware(ab)(mux)))
 	s.srv = httptest.NewServer(h)
 	return s, nil
@@ -448,6 +450,58 @@ func c20RunClients(seed int64, n int, useSMTP, jitter, jsonMode bool) (*c20serve
 	return srv, cs, nil
 }
 
+// gateBurst: G anonymous clients x M requests refused concurrently by ONE redirect-mode access
+// middleware on a real server; returns the first request that was sent to somebody else's target.
+func gateBurst(seed int64, jsonMode bool, G, M int) (string, int, error) {
+	srv2, err := newC20Server(seed, false, true, jsonMode)
+	if err != nil {
+		return "", 0, err
+	}
+	defer srv2.close()
+	var gw sync.WaitGroup
+	wrong := make(chan string, G)
+	for g := 0; g < G; g++ {
+		gw.Add(1)
+		go func(g int) {
+			defer gw.Done()
+			hc := &http.Client{CheckRedirect: func(*http.Request, []*http.Request) error { return http.ErrUseLastResponse }, Timeout: 30 * time.Second}
+			for i := 0; i < M; i++ {
+				target := fmt.Sprintf("/gate/g%d/i%d?who=g%d&n=%d", g, i, g, i)
+				req, _ := http.NewRequest("GET", srv2.srv.URL+target, nil)
+				if jsonMode {
+					req.Header.Set("Content-Type", "application/json")
+				}
+				resp, err := hc.Do(req)
+				if err != nil {
+					continue
+				}
+				body, _ := io.ReadAll(resp.Body)
+				resp.Body.Close()
+				loc := resp.Header.Get("Location")
+				if loc == "" {
+					var m map[string]interface{}
+					if json.Unmarshal(body, &m) == nil {
+						loc, _ = m["location"].(string)
+					}
+				}
+				u, perr := url.Parse(loc)
+				if perr != nil || u.Query().Get("redir") != target {
+					select {
+					case wrong <- fmt.Sprintf("request %s was sent to %q", target, loc):
+					default:
+					}
+				}
+			}
+		}(g)
+	}
+	gw.Wait()
+	close(wrong)
+	for msg := range wrong {
+		return msg, G * M, nil
+	}
+	return "", G * M, nil
+}
+
 func c20Unit(c *RunCtx, unit int) {
 	r := Rng(c.Seed, "C20", unit)
 	useSMTP := unit%2 == 1
@@ -514,6 +568,20 @@ func c20Unit(c *RunCtx, unit int) {
 				c.Stats.Violations = append(c.Stats.Violations, sim.VioRec{Violation: *v, Index: unit, History: got})
 				return
 			}
+		}
+	}
+	// anonymous clients refused concurrently by ONE instance of the access middleware: every one of
+	// them must be sent to the login page with ITS OWN path and query as the return target
+	if msg, n, err := gateBurst(r.Int63(), jsonMode, 8, 120); err != nil {
+		c.Stats.Inconclusive = append(c.Stats.Inconclusive, "server: "+err.Error())
+		return
+	} else {
+		c.Stats.Add("concurrent-refusals", n)
+		c.Stats.Evaluations += n
+		if msg != "" {
+			v := vio("C20", "refusal-carries-another-clients-target", "%s", msg)
+			c.Stats.Violations = append(c.Stats.Violations, sim.VioRec{Violation: *v, Index: unit})
+			return
 		}
 	}
 	// C11's handler programs, concurrently, under the race detector
@@ -593,11 +661,11 @@ func C20RaceReports(scratch string) (lib []string, harnessOnly int, total int) {
 func init() {
 	register(&Check{
 		ID: "C20", Level: "exploration",
-		Rule:  "-race build. One initialised instance behind a real net/http server on loopback, shipped defaults everywhere (router, body reader, responder, redirector, error handler, defaults.Logger on a locked writer, defaults.LogMailer on a locked writer in even units and defaults.SMTPMailer talking to an in-process fake SMTP server in odd units), MailNoGoroutine=false so the library's own mail goroutines run. 4/16/48 clients, each with its own account and cookie jar, run the script register → login-unconfirmed → confirm (token read from the mail) → wrong login → login(rm) → protected → otp add → logout → otp login → otp replay → logout → recover start → recover end (token from the mail) → old password → new password(rm) → remember re-auth → protected → logout → protected, concurrently (form mode in half of the units, JSON/API mode — JSON bodies in, JSON 'redirects' out — in the other half), with seeded yields/µs-sleeps injected at every storer and session-store operation and at SMTP accept. Oracles: (1) zero race-detector reports with a frame in github.com/volatiletech/authboss/v3 (GORACE halt_on_error=0 log_path, blocks counted from the logs, deduplicated by the innermost library frame pair); a report without a library frame makes the run inconclusive; (2) every client's transcript (status, Location, content type, body, its server-side session, jar keys, its token-row count, its own storage row after every step; identifiers/tokens/hashes/timestamps canonicalised) equals the transcript of the same script run alone against a fresh instance; (3) the C11 handler programs run in 8 goroutines concurrently. distinct_nontrivial = distinct interleaving signatures (hash of the global order of storer operations by account).",
+		Rule:  "-race build. One initialised instance behind a real net/http server on loopback, shipped defaults everywhere (router, body reader, responder, redirector, error handler, defaults.Logger on a locked writer, defaults.LogMailer on a locked writer in even units and defaults.SMTPMailer talking to an in-process fake SMTP server in odd units), MailNoGoroutine=false so the library's own mail goroutines run. 4/16/48 clients, each with its own account and cookie jar, run the script register → login-unconfirmed → confirm (token read from the mail) → wrong login → login(rm) → protected → otp add → logout → otp login → otp replay → logout → recover start → recover end (token from the mail) → old password → new password(rm) → remember re-auth → protected → logout → protected, concurrently (form mode in half of the units, JSON/API mode — JSON bodies in, JSON 'redirects' out — in the other half), with seeded yields/µs-sleeps injected at every storer and session-store operation and at SMTP accept. Oracles: (1) zero race-detector reports with a frame in github.com/volatiletech/authboss/v3 (GORACE halt_on_error=0 log_path, blocks counted from the logs, deduplicated by the innermost library frame pair); a report without a library frame makes the run inconclusive; (2) every client's transcript (status, Location, content type, body, its server-side session, jar keys, its token-row count, its own storage row after every step; identifiers/tokens/hashes/timestamps canonicalised) equals the transcript of the same script run alone against a fresh instance; (3) 8 anonymous clients x 120 requests refused concurrently by ONE redirect-mode access middleware must each be sent to the login page with their own path and query; (4) the C11 handler programs run in 8 goroutines concurrently. distinct_nontrivial = distinct interleaving signatures (hash of the global order of storer operations by account).",
 		Units: func(t string) int { return tierN(t, 12, 120) },
 		Run:   c20Unit,
 		Floors: func(t string) map[string]int {
-			return map[string]int{"client-scripts": 60, "storer-ops": 3000, "account-switches-in-global-order": 500, "concurrent-client-state-programs": 5000}
+			return map[string]int{"client-scripts": 60, "storer-ops": 3000, "account-switches-in-global-order": 500, "concurrent-client-state-programs": 5000, "concurrent-refusals": 5000}
 		},
 		Assumptions: []string{"the race detector only sees accesses that actually happen in a run; schedules are those the Go scheduler plus injected yields produce", "bcrypt cost 4; no 2FA enrolment in the script (cost-10 x10 hashing under -race)"},
 	})
